@@ -20,7 +20,7 @@ def fill_len(r):
         return r.below(70)
     if k < 9:
         return r.range(120, 136)
-    return r.below(600)
+    return r.below(1100)
 
 
 def history(r, maxlen=60, ops=OPS, weights=None):
